@@ -135,7 +135,7 @@ func lsRun(dir, backend string, shards, workers, ops int, seed uint64, mode stri
 	go func() { wg.Wait(); close(fin) }()
 	select {
 	case <-fin:
-	case <-time.After(15 * time.Second):
+	case <-runningFor(15 * time.Second):
 		buf := make([]byte, 1<<16)
 		n := runtime.Stack(buf, true)
 		os.WriteFile(dir+".hang-goroutines.txt", buf[:n], 0o644)
@@ -145,7 +145,7 @@ func lsRun(dir, backend string, shards, workers, ops int, seed uint64, mode stri
 	go func() { c.Destroy(); close(stopped) }()
 	select {
 	case <-stopped:
-	case <-time.After(5 * time.Second):
+	case <-runningFor(5 * time.Second):
 		return "HANG in Destroy"
 	}
 	return "completed"
